@@ -24,8 +24,8 @@ CONSTANTS
   NRepl = 17
   RichOnly = FALSE
   MaxRich <- Unlimited
-  PKinds <- KGarbLay
-  MaxEdits = 4
+  PKinds <- KMut
+  MaxEdits = 3
   NCmtCls = 8
   NCppForms = 18
   NGarb = 3
